@@ -167,6 +167,9 @@ def textCheck (P : Prog) (runs : List (List Char × Outcome × Option Layout)) :
     if runs.all (fun (t, o, L) =>
         match o, L with
         | .ok img, some L =>
+          -- (slicing is linear in the offset: skipped where words × text length is huge, e.g. a
+          -- 32K-word string literal of 64 KB — the theorem covers those)
+          img.spans.length * t.length > 20000000 ||
           img.spans.map (fun p => Lace.Dbg.sliceBytes t p.1 p.2) == (stmtTexts L P).map some
         | _, _ => true) then none
     else some "stmt-text-mismatch"
